@@ -476,7 +476,13 @@ def e_GeneratorExp(self, st, node):
     # evaluated eagerly like a list comprehension (sound when it is consumed completely and
     # its element expressions have no side effects the consumer depends on)
     if getattr(self, "eager_genexp", True):
-        return e_ListComp(self, st, node)
+        outs = []
+        for (s, k, v) in e_ListComp(self, st, node):
+            if k == "val" and isinstance(v, Ref) and s.obj(v).kind == "list" and s.obj(v).items is not None:
+                # an iterator over the values (consumed once, always true, usable with next())
+                v = s.alloc(HObj("iterator", {"@pos": 0}, kind="iterator", items=list(s.obj(v).items)))
+            outs.append((s, k, v))
+        return outs
     return [(st, "val", Top("genexp@%s" % getattr(node, "lineno", 0)))]
 
 
@@ -1081,6 +1087,14 @@ def get_attr(self, st, base, attr, node, default=KeyError):
         raise U_("enum attribute %s.%s" % (base, attr))
     if isinstance(base, ClassVal):
         ci = base.cls
+        ck = "@c:%s.%s" % (base.name(), attr)
+        if ck in st.ghost:
+            return [(st, "val", st.ghost[ck])]
+        if isinstance(ci, ClassInfo):
+            for anc in ci.mro()[1:]:
+                ck2 = "@c:%s.%s" % (getattr(anc, "name", anc), attr)
+                if ck2 in st.ghost:
+                    return [(st, "val", st.ghost[ck2])]
         if not isinstance(ci, ClassInfo) and attr in ("__name__", "__qualname__"):
             return [(st, "val", base.name())]
         if isinstance(ci, ClassInfo):
@@ -1110,6 +1124,11 @@ def get_attr(self, st, base, attr, node, default=KeyError):
                     (n, EnumVal(ci.name, n, v)) for n, v in ci.enum_members.items()])))]
             if ci.name + "." + attr in self.stubs:
                 return [(st, "val", BoundMeth(base, None, attr))]
+            if default is not KeyError:
+                return [(st, "val", default)]
+            if all(isinstance(c, ClassInfo) or str(c).split(".")[-1] in ("object", "Enum", "IntEnum") for c in ci.mro()):
+                # every base is known: the class really has no such attribute
+                return self.raise_exc(st, "AttributeError", node, "class-attr", "type object %r has no attribute %r" % (ci.name, attr))
             raise U_("class attribute %s.%s at %s" % (ci.name, attr, self.loc(node)))
         if attr == "__name__":
             return [(st, "val", base.name())]
@@ -1178,6 +1197,9 @@ def get_attr(self, st, base, attr, node, default=KeyError):
         if default is not KeyError:
             return [(st, "val", default)]
         return self.raise_exc(st, "AttributeError", node, "missing-attr", "function object has no attribute %s" % attr)
+    if isinstance(base, Builtin) and base.name == "dict" and attr == "fromkeys":
+        from .values import PyFn
+        return [(st, "val", PyFn("dict.fromkeys", ()))]
     raise U_("attribute %s on %r at %s" % (attr, base, self.loc(node)))
 
 
